@@ -5,12 +5,14 @@ import (
 	"database/sql/driver"
 	"encoding/hex"
 	"fmt"
+	"reflect"
 	"testing"
 	"time"
 
 	"github.com/peterstace/simplefeatures/geom"
 	"pgregory.net/rapid"
 
+	"verif/internal/apienum"
 	"verif/internal/codec"
 	"verif/internal/gen"
 	"verif/internal/gm"
@@ -89,6 +91,14 @@ func c04Check(c C04Case, cx *h.Ctx) *h.Failure {
 		}
 		if !bytes.Equal(lib, held) {
 			return h.Failf("wkb/result-overwritten", "the bytes returned by AsBinary() changed after later AsBinary/AppendWKB calls:\nwas %x\nnow %x", held, lib)
+		}
+		for _, method := range []string{"AsBinary", "Value"} {
+			if msg := scribbleEncoders(g, method); msg != "" {
+				return h.Failf("wkb/result-shared", "%s (%s)", msg, model)
+			}
+		}
+		if msg := scribbleStable("AppendWKB(nil)", func() []byte { return g.AppendWKB(nil) }); msg != "" {
+			return h.Failf("wkb/result-shared", "%s (%s)", msg, model)
 		}
 	}
 	// (f) independent reader decodes the library's bytes to the model
@@ -444,4 +454,42 @@ func dirty(typ string) geom.Geometry {
 		panic(h.HarnessBug("dirty geometry does not parse: " + err.Error()))
 	}
 	return g
+}
+
+// scribbleStable: the bytes an encoder returns belong to the caller. They are overwritten and the encoder is
+// called again: the second result must be what the first was. "" if so.
+func scribbleStable(name string, enc func() []byte) string {
+	b1 := enc()
+	want := append([]byte(nil), b1...)
+	for i := range b1 {
+		b1[i] ^= 0xff
+	}
+	if b2 := enc(); !bytes.Equal(b2, want) {
+		return fmt.Sprintf("%s returned %x, the caller overwrote those bytes, and the next %s returned %x", name, want, name, b2)
+	}
+	return ""
+}
+
+// scribbleEncoders applies scribbleStable to the method (no arguments, first result []byte or driver.Value holding
+// []byte) of g and of its concrete type.
+func scribbleEncoders(g geom.Geometry, method string) string {
+	for _, rv := range apienum.Receivers(g)[:2] {
+		m := rv.MethodByName(method)
+		if !m.IsValid() || m.Type().NumIn() != 0 || m.Type().NumOut() < 1 {
+			continue
+		}
+		if msg := scribbleStable(rv.Type().Name()+"."+method+"()", func() []byte {
+			out := m.Call(nil)[0]
+			if out.Kind() == reflect.Interface {
+				out = out.Elem()
+			}
+			if !out.IsValid() || out.Kind() != reflect.Slice {
+				return nil
+			}
+			return out.Bytes()
+		}); msg != "" {
+			return msg
+		}
+	}
+	return ""
 }
